@@ -526,6 +526,186 @@ __CPROVER_ensures((a != NULL && b != NULL) ==> (__CPROVER_return_value == (
      (a->infinity == 0 && b->infinity == 0 && vf_bn_val(a->x) == vf_bn_val(b->x) && vf_bn_val(a->y) == vf_bn_val(b->y))) ? 1 : 0)))
 ;
 
+/* ================================================================== C02: ladders and tables ==== */
+/*
+ * Scalar-multiplication ladders of the tests' configuration: COMB_2T (fixed point, window 9), COMB_1T
+ * (unknown point, window 2; the same functions, the same table type with 2^9 - 1 slots), interleaved
+ * w-NAF twin multiplication (EP_DEPTH = EP_WIDTH = 4, tables of 4).  Enforced (-DVF_ENFORCE_<fn>) with
+ * the point additions / doublings, the recoding functions and bn_* replaced by contracts:
+ *   memory safety incl. TABLE-INDEX BOUNDS: every pt_add_arr[windex - 1], pt_dbl_arr[windex - 1],
+ *       tbl[naf / 2], tbl[-naf / 2], naf0[i], naf1[i] is inside its array, for every scalar;
+ *   frame (only the result point / the table is written);  a callee error is propagated;
+ *   well-formed result on success.
+ * Representation invariant of a comb table (VF_COMB_TBL): wnd_bits <= EC_PF_FXP_MULT_WIN_BITS (the
+ * array has 2^EC_PF_FXP_MULT_WIN_BITS - 1 slots), wnd_count <= BN_BIT_LEN, every slot a pair of
+ * well-formed numbers.  It is REQUIRED by the enforced ladder and ESTABLISHED (first two parts) by
+ * the enforced precompute; callers up the chain (ec_point_mult_bp ... ecdsa_*) do not restate it
+ * for curve->G_fpx_mult_data: there it is an assumption on the curve object.
+ */
+#define VF_BN_WF_Q(n)		((n).count >= 1 && (n).count <= BN_MAX_DIGITS && (n).digits <= (n).count &&	\
+	((n).digits == 0 || (n).num[(n).digits - 1] != 0))
+#define VF_PT_ARR_WF(arr, N)	__CPROVER_forall { size_t vf_qk; (vf_qk < (size_t)(N)) ==>		\
+	(VF_BN_WF_Q((arr)[vf_qk].x) && VF_BN_WF_Q((arr)[vf_qk].y)) }
+#define VF_COMB_HDR(md)		((md)->wnd_bits <= EC_PF_FXP_MULT_WIN_BITS && (md)->wnd_count <= BN_BIT_LEN)
+
+/* res has at most wnd_bits significant bits; reads the number only (enforced: ec.bn_combo_column_get) */
+static inline bn_digit_t
+bn_combo_column_get(bn_p bn, size_t bit_off, size_t wnd_bits, size_t wnd_count)
+__CPROVER_requires(VF_ECBN_R(bn) && wnd_bits < BN_DIGIT_BITS)
+__CPROVER_assigns()
+__CPROVER_ensures(__CPROVER_return_value < (((bn_digit_t)1) << wnd_bits))
+;
+/* width-w NAF (assumed; C01 r2.bn_calc_naf.w8.b8 checks exactly these facts on 8-bit scalars): every
+ * entry of the array is 0 or odd with |digit| < 2^(w-1), entries from the count on are 0, count <= size */
+#define VF_NAF_DIGIT_OK(v, w)	((v) == 0 || (((v) & 1) != 0 && (v) < (1 << ((w) - 1)) && (v) > -(1 << ((w) - 1))))
+static inline int
+bn_calc_naf(bn_p bn, size_t wnd_bits, size_t naf_arr_size, int8_t *naf_arr, size_t *naf_arr_items_cnt_ret)
+__CPROVER_requires(VF_ECBN_R(bn) && wnd_bits >= 2 && wnd_bits <= 7 && naf_arr_size <= BN_BIT_LEN)
+__CPROVER_requires(__CPROVER_w_ok(naf_arr, naf_arr_size) && __CPROVER_w_ok(naf_arr_items_cnt_ret, sizeof(size_t)))
+__CPROVER_assigns(__CPROVER_object_upto(naf_arr, naf_arr_size), *naf_arr_items_cnt_ret)
+__CPROVER_assigns(VF_EC_STATUS_ASSIGNS)
+__CPROVER_ensures(VF_EC_STATUS_ENSURES)
+__CPROVER_ensures(__CPROVER_return_value == 0 ==> *naf_arr_items_cnt_ret <= naf_arr_size)
+__CPROVER_ensures(__CPROVER_return_value == 0 ==> __CPROVER_forall { size_t vf_qn; (vf_qn < (size_t)BN_BIT_LEN) ==>
+    (vf_qn >= naf_arr_size || (VF_NAF_DIGIT_OK(naf_arr[vf_qn], wnd_bits) &&
+     (vf_qn < *naf_arr_items_cnt_ret || naf_arr[vf_qn] == 0))) })
+;
+/* n doublings in place (assumed: loop over n) */
+static inline int
+ec_point_proj_dbl_n(ec_point_proj_p point, size_t n, ec_curve_p curve)
+__CPROVER_requires(VF_EC_PP_OK(point) && VF_EC_PP_WF(*point) && VF_CURVE_IN_EC(curve))
+__CPROVER_assigns(VF_EC_PP_FRAME(point))
+VF_POP_CALLEE(VF_POP_dbl_n, point, curve, n)
+__CPROVER_ensures(__CPROVER_return_value == 0 ==> VF_EC_PP_WF(*point))
+;
+/* binary ladder, the fall-back of the comb multipliers for over-long scalars (assumed) */
+static inline int
+ec_point_proj_bin_mult(ec_point_proj_p point, bn_p d, ec_curve_p curve)
+__CPROVER_requires(VF_EC_PP_OK(point) && VF_EC_PP_WF(*point) && VF_ECBN_R(d) && VF_CURVE_IN_EC(curve))
+__CPROVER_assigns(VF_EC_PP_FRAME(point))
+VF_POP_CALLEE(VF_POP_bin_mult, point, d, 0)
+__CPROVER_ensures(__CPROVER_return_value == 0 ==> VF_EC_PP_WF(*point))
+;
+
+#if defined(EC_USE_PROJECTIVE) && defined(EC_PROJ_ADD_MIX)
+/* ---- comb multipliers: point := d * P from the table(s) ---- */
+#define VF_COMB_MULT_CONTRACT(fn, T, GHOST, TBLREQ)					\
+static inline int fn(ec_point_proj_p point, T *mult_data, bn_p d, ec_curve_p curve)	\
+__CPROVER_requires(VF_EC_PP_OK(point) && VF_EC_PP_WF(*point) && VF_ECBN_R(d) && VF_CURVE_IN_EC(curve))	\
+__CPROVER_requires(__CPROVER_r_ok(mult_data, sizeof(T)))				\
+TBLREQ											\
+__CPROVER_assigns(VF_EC_PP_FRAME(point))						\
+GHOST											\
+__CPROVER_ensures(__CPROVER_return_value == 0 ==> VF_EC_PP_WF(*point))			\
+;
+#ifdef VF_ENFORCE_ec_point_proj_fpx_comb1t_mult
+VF_COMB_MULT_CONTRACT(ec_point_proj_fpx_comb1t_mult, ec_point_proj_fpx_comb1t_mult_data_t, VF_EC_ENFORCED_GHOST,
+    __CPROVER_requires(VF_COMB_HDR(mult_data) && VF_PT_ARR_WF(mult_data->pt_add_arr, EC_PF_FXP_MULT_NUM_POINTS)))
+#else
+VF_COMB_MULT_CONTRACT(ec_point_proj_fpx_comb1t_mult, ec_point_proj_fpx_comb1t_mult_data_t,
+    VF_POP_CALLEE(VF_POP_unkpt_mult, point, d, VF_ID(mult_data)), )
+#endif
+#ifdef VF_ENFORCE_ec_point_proj_fpx_comb2t_mult
+VF_COMB_MULT_CONTRACT(ec_point_proj_fpx_comb2t_mult, ec_point_proj_fpx_comb2t_mult_data_t, VF_EC_ENFORCED_GHOST,
+    __CPROVER_requires(VF_COMB_HDR(mult_data) && mult_data->e_count <= BN_BIT_LEN &&
+	VF_PT_ARR_WF(mult_data->pt_add_arr, EC_PF_FXP_MULT_NUM_POINTS) &&
+	VF_PT_ARR_WF(mult_data->pt_dbl_arr, EC_PF_FXP_MULT_NUM_POINTS)))
+#else
+VF_COMB_MULT_CONTRACT(ec_point_proj_fpx_comb2t_mult, ec_point_proj_fpx_comb2t_mult_data_t,
+    VF_POP_CALLEE(VF_POP_fpx_mult, point, d, VF_ID(mult_data)), )
+#endif
+/* ---- table construction: writes the table only; wnd_bits must fit the array ---- */
+#ifdef VF_ENFORCE_ec_point_proj_fpx_comb1t_mult_precompute_affine
+#define VF_G_comb1t_pre	VF_EC_ENFORCED_GHOST
+#else
+#define VF_G_comb1t_pre	VF_POP_CALLEE(VF_POP_unkpt_pre, point, mult_data, wnd_bits)
+#endif
+static inline int
+ec_point_proj_fpx_comb1t_mult_precompute_affine(size_t wnd_bits, ec_point_p point, ec_curve_p curve,
+    ec_point_proj_fpx_comb1t_mult_data_t *mult_data)
+__CPROVER_requires(__CPROVER_r_ok(point, sizeof(ec_point_t)) && VF_EC_POINT_WF(*point) && VF_CURVE_IN_EC(curve))
+__CPROVER_requires(__CPROVER_rw_ok(mult_data, sizeof(ec_point_proj_fpx_comb1t_mult_data_t)))
+__CPROVER_requires(wnd_bits <= EC_PF_FXP_MULT_WIN_BITS && !__CPROVER_same_object(point, mult_data))
+__CPROVER_assigns(__CPROVER_object_upto(mult_data, sizeof(ec_point_proj_fpx_comb1t_mult_data_t)))
+VF_G_comb1t_pre
+__CPROVER_ensures(__CPROVER_return_value == 0 ==> VF_COMB_HDR(mult_data))
+;
+#define VF_LADDER_FPX_CONTRACT
+#define VF_LADDER_UNKPT_CONTRACT
+#define VF_LADDER_UNKPT_PRE_CONTRACT
+
+/* ---- interleaved twin multiplication: res := ad * a + bd * b ---- */
+/* table of odd multiples 1P, 3P, ... (2^(w-1) - 1)P: 2^(w-2) slots */
+#ifdef VF_ENFORCE_ec_point_proj_inter_twin_mult_precalc_affine
+#define VF_G_inter_pre	VF_EC_ENFORCED_GHOST
+#else
+#define VF_G_inter_pre	VF_POP_CALLEE(VF_POP_inter_pre, point, tbl, wnd_bits)
+#endif
+static inline int
+ec_point_proj_inter_twin_mult_precalc_affine(ec_point_p point, size_t wnd_bits, ec_curve_p curve, ec_pt_proj_am_t *tbl)
+__CPROVER_requires(__CPROVER_r_ok(point, sizeof(ec_point_t)) && VF_EC_POINT_WF(*point) && VF_CURVE_IN_EC(curve))
+__CPROVER_requires(wnd_bits >= 2 && wnd_bits <= 4 && !__CPROVER_same_object(point, tbl))
+__CPROVER_requires(__CPROVER_rw_ok(tbl, (((size_t)1) << (wnd_bits - 2)) * sizeof(ec_pt_proj_am_t)))
+__CPROVER_assigns(__CPROVER_object_upto(tbl, (((size_t)1) << (wnd_bits - 2)) * sizeof(ec_pt_proj_am_t)))
+VF_G_inter_pre
+__CPROVER_ensures(__CPROVER_return_value == 0 ==> (VF_EC_POINT_WF(tbl[0]) &&
+    (wnd_bits < 3 || VF_EC_POINT_WF(tbl[1])) && (wnd_bits < 4 || (VF_EC_POINT_WF(tbl[2]) && VF_EC_POINT_WF(tbl[3])))))
+;
+#ifdef VF_ENFORCE_ec_point_proj_inter_twin_mult_affine
+#define VF_G_inter_twin	VF_EC_ENFORCED_GHOST
+#else
+#define VF_G_inter_twin	VF_POP_CALLEE(VF_POP_twin_mult, a, b, VF_ID(res))
+#endif
+static inline int
+ec_point_proj_inter_twin_mult_affine(ec_point_p a, bn_p ad, ec_point_p b, bn_p bd, ec_curve_p curve, ec_point_p res)
+__CPROVER_requires(__CPROVER_r_ok(a, sizeof(ec_point_t)) && VF_EC_POINT_WF(*a) && VF_ECBN_R(ad))
+__CPROVER_requires(__CPROVER_r_ok(b, sizeof(ec_point_t)) && VF_EC_POINT_WF(*b) && VF_ECBN_R(bd) && VF_CURVE_IN_EC(curve))
+__CPROVER_requires(VF_EC_POINT_OK(res) && VF_EC_POINT_WF(*res))
+__CPROVER_assigns(VF_EC_POINT_FRAME(res))
+VF_G_inter_twin
+__CPROVER_ensures(__CPROVER_return_value == 0 ==> VF_EC_POINT_WF(*res))
+;
+#define VF_LADDER_TWIN_CONTRACT
+#else /* other builds: the multipliers stay generic assumed callees */
+#define VF_LADDER_FPX_CONTRACT								\
+static inline int									\
+ec_point_proj_fpx_mult(ec_point_proj_p point, ec_point_proj_fpx_mult_data_t *mult_data, bn_p d, ec_curve_p curve)	\
+__CPROVER_requires(VF_EC_PP_OK(point) && VF_EC_PP_WF(*point) && VF_ECBN_R(d) && VF_CURVE_IN_EC(curve))	\
+__CPROVER_requires(__CPROVER_r_ok(mult_data, sizeof(ec_point_proj_fpx_mult_data_t)))	\
+__CPROVER_assigns(VF_EC_PP_FRAME(point))						\
+VF_POP_CALLEE(VF_POP_fpx_mult, point, d, VF_ID(mult_data))				\
+__CPROVER_ensures(__CPROVER_return_value == 0 ==> VF_EC_PP_WF(*point))			\
+;
+#define VF_LADDER_UNKPT_CONTRACT							\
+static inline int									\
+ec_point_proj_unkpt_mult(ec_point_proj_p point, ec_point_proj_unkpt_mult_data_t *mult_data, bn_p d, ec_curve_p curve)	\
+__CPROVER_requires(VF_EC_PP_OK(point) && VF_EC_PP_WF(*point) && VF_ECBN_R(d) && VF_CURVE_IN_EC(curve))	\
+__CPROVER_requires(__CPROVER_r_ok(mult_data, sizeof(ec_point_proj_unkpt_mult_data_t)))	\
+__CPROVER_assigns(VF_EC_PP_FRAME(point))						\
+VF_POP_CALLEE(VF_POP_unkpt_mult, point, d, VF_ID(mult_data))				\
+__CPROVER_ensures(__CPROVER_return_value == 0 ==> VF_EC_PP_WF(*point))			\
+;
+#define VF_LADDER_UNKPT_PRE_CONTRACT							\
+static inline int									\
+ec_point_proj_unkpt_mult_precompute_affine(size_t wnd_bits, ec_point_p point, ec_curve_p curve,	\
+    ec_point_proj_unkpt_mult_data_t *mult_data)						\
+__CPROVER_requires(__CPROVER_r_ok(point, sizeof(ec_point_t)) && VF_EC_POINT_WF(*point) && VF_CURVE_IN_EC(curve))	\
+__CPROVER_requires(__CPROVER_rw_ok(mult_data, sizeof(ec_point_proj_unkpt_mult_data_t)))	\
+__CPROVER_assigns(__CPROVER_object_upto(mult_data, sizeof(ec_point_proj_unkpt_mult_data_t)))	\
+VF_POP_CALLEE(VF_POP_unkpt_pre, point, mult_data, wnd_bits)				\
+;
+#define VF_LADDER_TWIN_CONTRACT								\
+static inline int									\
+ec_point_proj_twin_mult(ec_point_p a, bn_p ad, ec_point_p b, bn_p bd, ec_curve_p curve, ec_point_p res)	\
+__CPROVER_requires(__CPROVER_r_ok(a, sizeof(ec_point_t)) && VF_EC_POINT_WF(*a) && VF_ECBN_R(ad))	\
+__CPROVER_requires(__CPROVER_r_ok(b, sizeof(ec_point_t)) && VF_EC_POINT_WF(*b) && VF_ECBN_R(bd) && VF_CURVE_IN_EC(curve))	\
+__CPROVER_requires(VF_EC_POINT_OK(res) && VF_EC_POINT_WF(*res))				\
+__CPROVER_assigns(VF_EC_POINT_FRAME(res))						\
+VF_POP_CALLEE(VF_POP_twin_mult, a, b, VF_ID(res))					\
+__CPROVER_ensures(__CPROVER_return_value == 0 ==> VF_EC_POINT_WF(*res))			\
+;
+#endif
+
 /* ================================================================== C02: multiplication dispatch ==== */
 /* the algorithm-level multipliers are ASSUMED callees here (ladders / comb tables are not proved):
  * frame = the result point, any status, status 0 => well-formed coordinates */
@@ -546,15 +726,8 @@ __CPROVER_ensures(__CPROVER_return_value == 0 ==> VF_EC_POINT_WF(*point))
 __CPROVER_ensures(__CPROVER_return_value == 0 ==> (vf_n_pop == 2 && vf_pop_fn == VF_POP_export_affine && vf_pop_b == VF_ID(point)))
 #endif
 ;
-/* point := d * (the point the table was built for) */
-static inline int
-ec_point_proj_fpx_mult(ec_point_proj_p point, ec_point_proj_fpx_mult_data_t *mult_data, bn_p d, ec_curve_p curve)
-__CPROVER_requires(VF_EC_PP_OK(point) && VF_EC_PP_WF(*point) && VF_ECBN_R(d) && VF_CURVE_IN_EC(curve))
-__CPROVER_requires(__CPROVER_r_ok(mult_data, sizeof(ec_point_proj_fpx_mult_data_t)))
-__CPROVER_assigns(VF_EC_PP_FRAME(point))
-VF_POP_CALLEE(VF_POP_fpx_mult, point, d, VF_ID(mult_data))
-__CPROVER_ensures(__CPROVER_return_value == 0 ==> VF_EC_PP_WF(*point))
-;
+/* point := d * (the point the table was built for): see the ladder section below */
+VF_LADDER_FPX_CONTRACT
 #endif
 #if EC_PF_UNKPT_MULT_ALGO != EC_PF_UNKPT_MULT_ALGO_BIN
 #ifdef VF_ENFORCE_ec_point_proj_unkpt_mult_affine
@@ -573,34 +746,10 @@ __CPROVER_ensures(__CPROVER_return_value == 0 ==> VF_EC_POINT_WF(*point))
 __CPROVER_ensures(__CPROVER_return_value == 0 ==> (vf_n_pop == 2 && vf_pop_fn == VF_POP_export_affine && vf_pop_b == VF_ID(point)))
 #endif
 ;
-static inline int
-ec_point_proj_unkpt_mult(ec_point_proj_p point, ec_point_proj_unkpt_mult_data_t *mult_data, bn_p d, ec_curve_p curve)
-__CPROVER_requires(VF_EC_PP_OK(point) && VF_EC_PP_WF(*point) && VF_ECBN_R(d) && VF_CURVE_IN_EC(curve))
-__CPROVER_requires(__CPROVER_r_ok(mult_data, sizeof(ec_point_proj_unkpt_mult_data_t)))
-__CPROVER_assigns(VF_EC_PP_FRAME(point))
-VF_POP_CALLEE(VF_POP_unkpt_mult, point, d, VF_ID(mult_data))
-__CPROVER_ensures(__CPROVER_return_value == 0 ==> VF_EC_PP_WF(*point))
-;
-/* builds the table of multiples of `point`: writes the table only */
-static inline int
-ec_point_proj_unkpt_mult_precompute_affine(size_t wnd_bits, ec_point_p point, ec_curve_p curve,
-    ec_point_proj_unkpt_mult_data_t *mult_data)
-__CPROVER_requires(__CPROVER_r_ok(point, sizeof(ec_point_t)) && VF_EC_POINT_WF(*point) && VF_CURVE_IN_EC(curve))
-__CPROVER_requires(__CPROVER_rw_ok(mult_data, sizeof(ec_point_proj_unkpt_mult_data_t)))
-__CPROVER_assigns(__CPROVER_object_upto(mult_data, sizeof(ec_point_proj_unkpt_mult_data_t)))
-VF_POP_CALLEE(VF_POP_unkpt_pre, point, mult_data, wnd_bits)
-;
+VF_LADDER_UNKPT_CONTRACT
+VF_LADDER_UNKPT_PRE_CONTRACT
 #endif
-/* res := ad * a + bd * b (affine in, affine out) */
-static inline int
-ec_point_proj_twin_mult(ec_point_p a, bn_p ad, ec_point_p b, bn_p bd, ec_curve_p curve, ec_point_p res)
-__CPROVER_requires(__CPROVER_r_ok(a, sizeof(ec_point_t)) && VF_EC_POINT_WF(*a) && VF_ECBN_R(ad))
-__CPROVER_requires(__CPROVER_r_ok(b, sizeof(ec_point_t)) && VF_EC_POINT_WF(*b) && VF_ECBN_R(bd) && VF_CURVE_IN_EC(curve))
-__CPROVER_requires(VF_EC_POINT_OK(res) && VF_EC_POINT_WF(*res))
-__CPROVER_assigns(VF_EC_POINT_FRAME(res))
-VF_POP_CALLEE(VF_POP_twin_mult, a, b, VF_ID(res))
-__CPROVER_ensures(__CPROVER_return_value == 0 ==> VF_EC_POINT_WF(*res))
-;
+VF_LADDER_TWIN_CONTRACT
 
 /* ================================================================== C02: curve validation ==== */
 /* The function ends in the MOV-condition loop (99 iterations of bn_assign + bn_mod_exp_digit); fully
